@@ -200,10 +200,11 @@ class Imaging(Probe):
         coords = self.coords
         if coords is None:
             coords = sm.system.get("coords", broadcast=False)
-        modulation = self.opts.pop("modulation", None)
+        opts = dict(self.opts)  # the probe may be used again: leave its options untouched
+        modulation = opts.pop("modulation", None)
         if modulation is None:
             modulation = sm.system.get("modulation", broadcast=False)
-        weights = self.opts.pop("weights", None)
+        weights = opts.pop("weights", None)
         if weights is None:
             weights = sm.system.get("weights", broadcast=False)
         # imaging function
@@ -214,7 +215,7 @@ class Imaging(Probe):
             acctime=sm.t if sm.kdim == 4 else None,
             modulation=modulation,
             weights=weights,
-            **self.opts,
+            **opts,
         )
 
 
